@@ -18,16 +18,18 @@ let rng r = Printf.sprintf "%d..%d" (int_of_nat r.rs) (int_of_nat r.re)
 let optl = function None -> "-" | Some l -> "=" ^ hex l
 let optl_lower = function None -> "-" | Some l -> "=" ^ lower_hex l
 
-let print_token t =
+let print_token_s t =
   match t with
   | TStart (name, _, n, attrs, sc, _, loc) ->
-      Printf.printf "E S %s %s %s [%s] %b\n" (rng loc) (hex name) (nss n)
+      Printf.sprintf "S %s %s %s [%s] %b" (rng loc) (hex name) (nss n)
         (String.concat "," (List.map (fun a -> Printf.sprintf "%s=%s@%s" (hex a.av_name) (hex a.av_value)
            (match a.av_locs with None -> "-/-" | Some (n, v) -> rng n ^ "/" ^ rng v)) attrs)) sc
-  | TEnd (name, _, _, loc) -> Printf.printf "E E %s %s\n" (rng loc) (hex name)
-  | TText (ty, text, last, loc) -> Printf.printf "E T %s %s %s %b\n" (rng loc) (tt ty) (hex text) last
-  | TComment (text, _, loc) -> Printf.printf "E C %s %s\n" (rng loc) (hex text)
-  | TDoctype (n, p, s, fq, _, loc) -> Printf.printf "E D %s %s %s %s %b\n" (rng loc) (optl_lower n) (optl p) (optl s) fq
+  | TEnd (name, _, _, loc) -> Printf.sprintf "E %s %s" (rng loc) (hex name)
+  | TText (ty, text, last, loc) -> Printf.sprintf "T %s %s %s %b" (rng loc) (tt ty) (hex text) last
+  | TComment (text, _, loc) -> Printf.sprintf "C %s %s" (rng loc) (hex text)
+  | TDoctype (n, p, s, fq, _, loc) -> Printf.sprintf "D %s %s %s %s %b" (rng loc) (optl_lower n) (optl p) (optl s) fq
+
+let print_token t = print_endline ("E " ^ print_token_s t)
 
 let print_res k r =
   Printf.printf "R %d %s\n" k
@@ -79,10 +81,122 @@ let run_l1 id tbl =
        Printf.printf "U %d %d\n" k (int_of_n o.o_usage)) obs);
   print_endline "."
 
+
+(* ---------------- level 2 parsing ---------------- *)
+let rec z_of_int i = if i = 0 then Z0 else if i > 0 then Zpos (pos_of_int i) else Zneg (pos_of_int (-i))
+let split c s = if s = "" then [] else String.split_on_char c s
+let chunk_of s = let body = unhex (String.sub s 1 (String.length s - 1)) in
+  if s.[0] = 'h' then (body, CtHtml) else (body, CtText)
+let strip_prefix p s = String.sub s (String.length p) (String.length s - String.length p)
+let et_op_of s =
+  match String.sub s 0 2 with
+  | "bf" -> EtBefore (chunk_of (strip_prefix "bf:" s))
+  | "af" -> EtAfter (chunk_of (strip_prefix "af:" s))
+  | "rp" -> EtReplace (chunk_of (strip_prefix "rp:" s))
+  | "rm" -> EtRemove
+  | "sn" -> EtSetName (unhex (strip_prefix "sn:" s))
+  | _ -> failwith ("et_op " ^ s)
+let el_op_of s =
+  let arg () = String.sub s 3 (String.length s - 3) in
+  match String.sub s 0 2 with
+  | "bf" -> ElBefore (chunk_of (arg ())) | "af" -> ElAfter (chunk_of (arg ())) | "pp" -> ElPrepend (chunk_of (arg ()))
+  | "ap" -> ElAppend (chunk_of (arg ())) | "si" -> ElSetInner (chunk_of (arg ())) | "rp" -> ElReplace (chunk_of (arg ()))
+  | "rm" -> ElRemove | "rk" -> ElRemoveKeep
+  | "sa" -> (match String.split_on_char ':' (arg ()) with [n; v] -> ElSetAttr (unhex n, unhex v) | _ -> failwith "sa")
+  | "ra" -> ElRemoveAttr (unhex (arg ())) | "tn" -> ElSetTagName (unhex (arg ()))
+  | "oe" -> let a = arg () in ElOnEndTag (List.map et_op_of (split '+' (String.sub a 1 (String.length a - 2))))
+  | "sb" -> ElStartBefore (chunk_of (arg ())) | "sf" -> ElStartAfter (chunk_of (arg ())) | "sr" -> ElStartReplace (chunk_of (arg ()))
+  | "sx" -> ElStartRemove
+  | _ -> failwith ("el_op " ^ s)
+let tok_op_of s =
+  match String.sub s 0 2 with
+  | "bf" -> TkBefore (chunk_of (strip_prefix "bf:" s)) | "af" -> TkAfter (chunk_of (strip_prefix "af:" s))
+  | "rp" -> TkReplace (chunk_of (strip_prefix "rp:" s)) | "rm" -> TkRemove | "st" -> TkSetText (unhex (strip_prefix "st:" s))
+  | _ -> failwith ("tok_op " ^ s)
+let opt_of f s = if s = "-" then None else Some (f s)
+let el_ops s = List.map el_op_of (split ',' s)
+let tok_ops s = List.map tok_op_of (split ',' s)
+let tx_of s = let w = match s.[0] with 'a' -> TwAlways | 'l' -> TwLast | _ -> TwNotLast in
+  (w, tok_ops (String.sub s 2 (String.length s - 2)))
+(* selector structure *)
+let parse_selector (s : Stdlib.String.t) : selector =
+  let n = String.length s in
+  let pos = ref 0 in
+  let peek () = if !pos < n then s.[!pos] else '$' in
+  let adv () = incr pos in
+  let is_hex c = (c >= '0' && c <= '9') || (c >= 'a' && c <= 'f') in
+  let hexs () = let st = !pos in while is_hex (peek ()) do adv () done; unhex (String.sub s st (!pos - st)) in
+  let int_ () = let neg = (peek () = 'm') in if neg then adv ();
+    let st = !pos in while peek () >= '0' && peek () <= '9' do adv () done;
+    let v = int_of_string (String.sub s st (!pos - st)) in z_of_int (if neg then -v else v) in
+  let expect c = if peek () <> c then failwith (Printf.sprintf "selector: expected %c at %d in %s" c !pos s); adv () in
+  let rec simple () =
+    let c = peek () in adv ();
+    match c with
+    | 'T' -> SType (hexs ()) | 'A' -> SAny | 'U' -> SUnmatchable
+    | 'I' -> SId (hexs ()) | 'C' -> SClass (hexs ()) | 'E' -> SAttrExists (hexs ())
+    | 'V' -> let op = (match peek () with 'e' -> OpEq | 'i' -> OpIncludes | 'd' -> OpDash | 'p' -> OpPrefix | 's' -> OpSubstring | _ -> OpSuffix) in adv ();
+             let cs = (match peek () with 's' -> CsSensitive | 'i' -> CsInsensitive | _ -> CsInsensitiveIfHtml) in adv ();
+             expect ':'; let nm = hexs () in expect ':'; let v = hexs () in SAttr (nm, v, cs, op)
+    | 'N' -> let a = int_ () in expect ':'; let b = int_ () in SNthChild (a, b)
+    | 'O' -> let a = int_ () in expect ':'; let b = int_ () in SNthOfType (a, b)
+    | 'X' -> expect '('; let first = compound () in let rest = ref [] in
+             while peek () = '!' do adv (); rest := compound () :: !rest done; expect ')'; SNot (first :: List.rev !rest)
+    | _ -> failwith (Printf.sprintf "selector: bad simple %c in %s" c s)
+  and compound () = let first = simple () in let rest = ref [] in
+    while peek () = '.' do adv (); rest := simple () :: !rest done; first :: List.rev !rest in
+  let complex () = let first = compound () in let rest = ref [] in
+    while peek () = '>' || peek () = '_' do
+      let cb = if peek () = '>' then Child else Descendant in adv (); rest := (cb, compound ()) :: !rest done;
+    { cx_first = first; cx_rest = List.rev !rest } in
+  let first = complex () in let rest = ref [] in
+  while peek () = '|' do adv (); rest := complex () :: !rest done;
+  first :: List.rev !rest
+
+let hk = function HkElement -> "el" | HkEndTag -> "et" | HkComment -> "cm" | HkText -> "tx" | HkDoctype -> "dt" | HkEnd -> "end" | HkBailOut -> "bail"
+let print_event e =
+  Printf.printf "H %s %d r=%s a=%s | " (hk e.ev_kind) (int_of_nat e.ev_handler)
+    (String.concat "" (List.map (function OpOk -> "k" | OpErr -> "e") e.ev_results))
+    (match e.ev_after with None -> "-" | Some (nm, attrs) -> hex nm ^ "[" ^ String.concat "," (List.map (fun (k, v) -> hex k ^ "=" ^ hex v) attrs) ^ "]");
+  (match e.ev_token with Some t -> print_endline (print_token_s t) | None -> print_endline "-")
+
+let values tokens key =
+  List.filter_map (fun tok -> let p = key ^ "=" in
+    if String.length tok > String.length p && String.sub tok 0 (String.length p) = p then Some (strip_prefix p tok) else None) tokens
+
+let run_l2 id line =
+  let tbl = kv line in
+  let tokens = String.split_on_char ' ' line in
+  let cfg = { st_strict = getb tbl "strict"; st_max_mem = n_of_int (geti tbl "mem" 1048576);
+              st_prealloc = nat_of_int (geti tbl "prealloc" 0); st_bail_mem = getb tbl "bm";
+              st_bail_handler = getb tbl "bh"; st_encoding = O } in
+  let fail = let f = get tbl "fail" "-" in if f = "-" then None else Some (nat_of_int (int_of_string f)) in
+  let sels = List.map (fun v -> match String.split_on_char '~' v with
+      | [_; st; el; cm; tx] -> { sh_selector = parse_selector st; sh_element = opt_of el_ops el; sh_comments = opt_of tok_ops cm; sh_text = opt_of tx_of tx }
+      | _ -> failwith "sel") (values tokens "sel") in
+  let docs = List.map (fun v -> match String.split_on_char '~' v with
+      | [dt; cm; tx; en] -> { dh_doctype = opt_of tok_ops dt; dh_comments = opt_of tok_ops cm; dh_text = opt_of tx_of tx;
+                              dh_end = opt_of (fun s -> List.map chunk_of (split ';' s)) en }
+      | _ -> failwith "doc") (values tokens "doc") in
+  let bail = List.map (fun v -> List.map chunk_of (split ';' v)) (values tokens "bail") in
+  let ops = parse_ops (get tbl "ops" "E") in
+  let obs = l2_case cfg sels docs bail fail (n_of_int (geti tbl "isz" 0)) ops in
+  Printf.printf "C %s\n" id;
+  (match obs with
+   | None -> print_endline "R new panic:construct"
+   | Some obs ->
+     List.iteri (fun k o ->
+       List.iter print_sink o.o2_sink;
+       List.iter print_event o.o2_events;
+       print_res k o.o2_res;
+       (match List.nth ops k, o.o2_res with Write _, (ROk | RErr _) -> Printf.printf "U %d %d\n" k (int_of_n o.o2_usage) | _ -> ())) obs);
+  print_endline "."
+
 let () =
   try while true do
     let line = input_line stdin in
     match String.split_on_char ' ' line with
     | "L1" :: id :: _ -> run_l1 id (kv line)
+    | "L2" :: id :: _ -> (try run_l2 id line with Failure m -> Printf.printf "C %s\nX model-driver-failure %s\n.\n" id m)
     | _ -> ()
   done with End_of_file -> ()
